@@ -213,3 +213,156 @@ func revisionHistory(c *kit.Ctx, i int) {
 	c.Count("revision_history_cases", 1)
 	c.Count("revision_history_satisfied_reports_checked", int64(reported))
 }
+
+// sharedManagerInterleave: three ConfigurationRevisions - A depends on B, B depends on C (which
+// nobody installs), Z depends on nothing - are reconciled by ONE revision reconciler (one
+// dependency manager, as the package controller's workers share it). While the response to one
+// of A's write requests is in flight, other workers reconcile B and Z to completion, at every
+// write of A's reconcile and in both orders. Whatever the workers share, a revision that then
+// reports its dependencies satisfied has every direct and transitive dependency in the Lock.
+func sharedManagerInterleave(c *kit.Ctx, i int) {
+	r := c.Rng("shared-manager", i)
+	order := [][]string{{"b", "z"}, {"z", "b"}, {"z"}, {"b", "z", "b"}}[i%4]
+	ms, err := xpkg.BuildMetaScheme()
+	if err != nil {
+		panic(err)
+	}
+	os, err := xpkg.BuildObjectScheme()
+	if err != nil {
+		panic(err)
+	}
+	meta := func(name, dep string) []byte {
+		s := "apiVersion: meta.pkg.crossplane.io/v1\nkind: Configuration\nmetadata:\n  name: " + name + "\nspec:\n"
+		if dep != "" {
+			s += "  dependsOn:\n  - configuration: xpkg.example.org/acme/cfg-" + dep + "\n    version: \">=v1.0.0\"\n"
+		} else {
+			s += "  crossplane:\n    version: \">=v0.0.0\"\n"
+		}
+		return []byte(s)
+	}
+	deps := map[string]string{"a": "b", "b": "c", "z": ""}
+	build := func() (*sim.World, *sim.Client, *revision.Reconciler) {
+		w := sim.NewWorld(xrk.Scheme(), uint64(c.Seed)*277+uint64(i))
+		w.MustSeed("setup", map[string]any{"apiVersion": "pkg.crossplane.io/v1beta1", "kind": "Lock", "metadata": map[string]any{"name": "lock"}, "packages": []any{}})
+		cache := &pkgCache{m: map[string][]byte{}}
+		for _, n := range []string{"a", "b", "z"} {
+			w.MustSeed("setup", map[string]any{"apiVersion": "pkg.crossplane.io/v1", "kind": "Configuration", "metadata": map[string]any{"name": "cfg-" + n}, "spec": map[string]any{"package": "xpkg.example.org/acme/cfg-" + n + ":v1.2.0"}})
+			cfg := w.GetObj(sim.Key{Group: "pkg.crossplane.io", Kind: "Configuration", Name: "cfg-" + n})
+			rn := "cfg-" + n + "-0a1b2c3d4e5f"
+			w.MustSeed("setup", map[string]any{"apiVersion": "pkg.crossplane.io/v1", "kind": "ConfigurationRevision",
+				"metadata": map[string]any{"name": rn, "labels": map[string]any{"pkg.crossplane.io/package": "cfg-" + n},
+					"ownerReferences": []any{map[string]any{"apiVersion": "pkg.crossplane.io/v1", "kind": "Configuration", "name": "cfg-" + n, "uid": sim.Str(cfg, "metadata", "uid"), "controller": true, "blockOwnerDeletion": true}}},
+				"spec": map[string]any{"image": "xpkg.example.org/acme/cfg-" + n + ":v1.2.0", "desiredState": "Active", "revision": int64(1), "skipDependencyResolution": false}})
+			cache.m[rn] = meta("cfg-"+n, deps[n])
+		}
+		cl := w.Client("revision")
+		rec := revision.NewReconciler(xrk.NewManager(w, cl),
+			revision.WithCache(cache),
+			revision.WithDependencyManager(revision.NewPackageDependencyManager(cl, dag.NewMapDag, v1.ConfigurationGroupVersionKind)),
+			revision.WithEstablisher(revision.NewAPIEstablisher(cl, "crossplane-system", 2)),
+			revision.WithNewPackageRevisionFn(func() v1.PackageRevision { return &v1.ConfigurationRevision{} }),
+			revision.WithParser(parser.New(ms, os)),
+			revision.WithConfigStore(xpkg.NewImageConfigStore(cl, "crossplane-system")),
+			revision.WithLinter(xpkg.NewConfigurationLinter()),
+			revision.WithNamespace("crossplane-system"),
+			revision.WithServiceAccount("crossplane"),
+		)
+		return w, cl, rec
+	}
+	ctx := context.Background()
+	lockKey := sim.Key{Group: "pkg.crossplane.io", Kind: "Lock", Name: "lock"}
+	inLock := func(w *sim.World, n string) bool {
+		ps, _, _ := unstructured.NestedSlice(w.GetObj(lockKey), "packages")
+		for _, p := range ps {
+			if m, ok := p.(map[string]any); ok && m["source"] == "xpkg.example.org/acme/cfg-"+n {
+				return true
+			}
+		}
+		return false
+	}
+	// judge: after a reconcile of revision n returned, if it reports satisfied the Lock holds its closure
+	judge := func(w *sim.World, n string, rerr error, caseName string, trace *[]string) bool {
+		rv := w.GetObj(sim.Key{Group: "pkg.crossplane.io", Kind: "ConfigurationRevision", Name: "cfg-" + n + "-0a1b2c3d4e5f"})
+		healthy := false
+		conds, _, _ := unstructured.NestedSlice(rv, "status", "conditions")
+		for _, cd := range conds {
+			if m, ok := cd.(map[string]any); ok && m["type"] == "Healthy" {
+				healthy = m["status"] == "True"
+			}
+		}
+		found, _, _ := unstructured.NestedInt64(rv, "status", "foundDependencies")
+		inst, _, _ := unstructured.NestedInt64(rv, "status", "installedDependencies")
+		inv, _, _ := unstructured.NestedInt64(rv, "status", "invalidDependencies")
+		*trace = append(*trace, fmt.Sprintf("reconcile cfg-%s: err=%v healthy=%v found=%d installed=%d invalid=%d lock has a=%v b=%v c=%v z=%v", n, rerr, healthy, found, inst, inv, inLock(w, "a"), inLock(w, "b"), inLock(w, "c"), inLock(w, "z")))
+		if rerr != nil || !healthy || found == 0 || inst != found || inv != 0 {
+			return true
+		}
+		c.Count("shared_manager_satisfied_reports_checked", 1)
+		for d := deps[n]; d != ""; d = deps[d] {
+			if !inLock(w, d) {
+				c.Violate("revision-reports-dependencies-satisfied-against-the-lock:workers-share-the-dependency-manager", caseName,
+					fmt.Sprintf("cfg-%s reports its dependencies satisfied (Healthy, found=%d installed=%d invalid=%d) but its (transitive) dependency cfg-%s is not in the Lock", n, found, inst, inv, d),
+					map[string]any{"others_during_the_write": order, "steps": *trace, "lock": w.GetObj(lockKey)["packages"]})
+				return false
+			}
+		}
+		return true
+	}
+	req := func(n string) reconcile.Request {
+		return reconcile.Request{NamespacedName: types.NamespacedName{Name: "cfg-" + n + "-0a1b2c3d4e5f"}}
+	}
+	// probe: how many writes does A's first reconcile issue?
+	pw, pcl, prec := build()
+	_, _ = prec.Reconcile(ctx, req("z"))
+	writes := 0
+	pcl.AfterWrite = func(string, sim.Key, error) { writes++ }
+	_, _ = prec.Reconcile(ctx, req("a"))
+	_ = pw
+	for k := 0; k < writes; k++ {
+		caseName := fmt.Sprintf("shared-manager/%d/during-write-%d", i, k)
+		if !c.Want(caseName) {
+			continue
+		}
+		w, cl, rec := build()
+		var trace []string
+		_, zerr := rec.Reconcile(ctx, req("z"))
+		ok := judge(w, "z", zerr, caseName, &trace)
+		n := 0
+		busy := false
+		cl.AfterWrite = func(verb string, key sim.Key, _ error) {
+			if busy {
+				return
+			}
+			if n == k {
+				busy = true
+				trace = append(trace, fmt.Sprintf("-- while the response to A's %s of %s is in flight:", verb, key))
+				for _, o := range order {
+					_, oerr := rec.Reconcile(ctx, req(o))
+					ok = judge(w, o, oerr, caseName, &trace) && ok
+				}
+				trace = append(trace, "-- A's reconcile continues")
+				busy = false
+			}
+			n++
+		}
+		var aerr error
+		if p := kit.Try(func() { _, aerr = rec.Reconcile(ctx, req("a")) }); p != nil {
+			c.Violate("panic-in-revision-reconcile:workers-share-the-dependency-manager", caseName, p.Error(), map[string]any{"steps": trace})
+			continue
+		}
+		cl.AfterWrite = nil
+		ok = judge(w, "a", aerr, caseName, &trace) && ok
+		// then everybody once more, in a seeded order
+		rest := []string{"a", "b", "z"}
+		r.Shuffle(3, func(x, y int) { rest[x], rest[y] = rest[y], rest[x] })
+		for _, o := range rest {
+			if !ok {
+				break
+			}
+			_, oerr := rec.Reconcile(ctx, req(o))
+			ok = judge(w, o, oerr, caseName, &trace)
+		}
+		c.Eval(caseName, true)
+		c.Count("shared_manager_interleavings", 1)
+	}
+}
